@@ -34,7 +34,7 @@ def gen_fasta(rng, nrec=None, widths=None, maxlen=240, crlf=None, final_nl=None,
         w = rng.choice(widths or WIDTHS)
         seq = gen_seq(rng, w, alphabet, maxlen)
         while True:
-            name = rng.choice(["r", "seq", "scaffold_", "HAP1_x", "c|", "a.b:", "HG002#1#chr"]) + str(rng.randint(0, 999))
+            name = rng.choice(["r", "seq", "scaffold_", "HAP1_x", "c|", "a.b:", "HG002#1#chr", "ctg%2F", "p%%", '"q', '"ctg"x']) + str(rng.randint(0, 999))
             if name not in used:
                 used.add(name)
                 break
@@ -43,6 +43,8 @@ def gen_fasta(rng, nrec=None, widths=None, maxlen=240, crlf=None, final_nl=None,
             hdr += rng.choice([b" some description", b"\tlen=12 x", b" "])
         body = nl.join(seq[j : j + w] for j in range(0, len(seq), w))
         data += hdr + nl + body + nl
+        if r < nrec - 1 and rng.random() < 0.08:
+            data += nl * rng.randint(1, 2)  # blank line(s) between two records
         recs.append((name, seq))
         ws.append(w)
     if not final_nl:
